@@ -485,11 +485,12 @@ func c10Run(c *mon.Ctx) {
 		r := c.SubRng("coll", i)
 		kind := collKinds[i%5]
 		anchor := gen.RandShape(r, exact.KPoly, 1)
+		far := false
 		if i%8 == 5 {
 			// the whole configuration far outside the longitude/latitude range (planar composition does not care)
 			t := gen.Transform{Name: "far", Num: 1, Den: 1, TX: []int64{400, -1000, 0, 4096}[i/8%4] * gen.U, TY: []int64{200, 0, -300, 4096}[i/8%4] * gen.U}
 			if sh, ok := t.ApplyShape(anchor); ok {
-				anchor = sh
+				anchor, far = sh, true
 				c.Count("configurations_outside_lonlat_range")
 			}
 		}
@@ -539,6 +540,12 @@ func c10Run(c *mon.Ctx) {
 		for k := 0; k < 6; k++ {
 			xk := kinds12[r.Intn(len(kinds12))]
 			nx := c09Node(r, xk, anchor, 1)
+			if far && (hasKind(nc, "Circle") || hasKind(nx, "Circle")) {
+				// a circle centred outside the latitude range has no great-circle meaning: the planar
+				// far-away configurations are judged without circles
+				c.Count("far_configurations_with_circles_skipped")
+				continue
+			}
 			if xk == "Circle" {
 				if !circleBandClear(nx, nc) {
 					c.Inconclusive("a position of the collection lies in the band where the circle's rectangle pre-filter and its exact-distance test may differ")
